@@ -495,7 +495,7 @@ _CONST_CACHE = {}
 class PEv:
     LOOP_CAP = 500
     BUILTINS = ('int', 'str', 'len', 'float', 'range', 'list', 'tuple', 'dict', 'set', 'bool', 'min', 'max', 'abs',
-                'round', 'enumerate', 'sorted', 'reversed', 'zip')
+                'round', 'enumerate', 'sorted', 'reversed', 'zip', 'any', 'all', 'sum')
 
     def __init__(self, cx, mod, hooks=None, depth=0):
         import decimal
@@ -678,6 +678,8 @@ class PEv:
                 if key not in _CONST_CACHE:
                     _CONST_CACHE[key] = PEv(self.cx, r[1], self.hooks, self.depth + 1).ev(r[2], {})
                 return _CONST_CACHE[key]
+            if r and r[0] == 'func':
+                return ('mfunc', r[1], r[2])        # module-level function: interpreted in its own module
             self.err(e, 'name not resolved')
         if isinstance(e, ast.Tuple):
             return tuple(self.ev(x, env) for x in e.elts)
@@ -757,15 +759,40 @@ class PEv:
             return self.attr(b, e.attr, e)
         if isinstance(e, ast.Call):
             return self.call(e, env)
-        if isinstance(e, ast.ListComp) and len(e.generators) == 1 and not e.generators[0].is_async:
-            g = e.generators[0]
-            out = []
-            for v in list(self.ev(g.iter, env)):
-                env2 = dict(env)
-                self.store(g.target, v, env2)
-                if all(self.truth(self.ev(c, env2)) for c in g.ifs):
-                    out.append(self.ev(e.elt, env2))
-            return out
+        if isinstance(e, (ast.ListComp, ast.GeneratorExp, ast.SetComp, ast.DictComp)):
+            if any(g.is_async for g in e.generators):
+                self.err(e, 'async comprehension')
+
+            def gen(i, env2):
+                # lazy, in Python's order: a consumer such as any() stops evaluating elements when it has its answer
+                if i == len(e.generators):
+                    if isinstance(e, ast.DictComp):
+                        yield (self.ev(e.key, env2), self.ev(e.value, env2))
+                    else:
+                        yield self.ev(e.elt, env2)
+                    return
+                g = e.generators[i]
+                it = self.ev(g.iter, env2)
+                try:
+                    it = iter(it)
+                except TypeError:
+                    raise PyRaise('TypeError', 'not iterable')
+                n = 0
+                for v in it:
+                    n += 1
+                    if n > self.LOOP_CAP:
+                        self.err(e, 'comprehension too long')
+                    env3 = dict(env2)
+                    self.store(g.target, v, env3)
+                    if all(self.truth(self.ev(c, env3)) for c in g.ifs):
+                        yield from gen(i + 1, env3)
+            if isinstance(e, ast.ListComp):
+                return list(gen(0, env))
+            if isinstance(e, ast.SetComp):
+                return set(gen(0, env))
+            if isinstance(e, ast.DictComp):
+                return dict(gen(0, env))
+            return gen(0, env)
         self.err(e, 'expression %s not modelled' % type(e).__name__)
 
     def attr(self, b, name, node):
@@ -828,6 +855,8 @@ class PEv:
         f = self.ev(e.func, env)
         if isinstance(f, tuple) and f[0] == 'func':
             return self.call_fn(f[1], f[2], args, kwargs, f[3], e)
+        if isinstance(f, tuple) and f[0] == 'mfunc':
+            return PEv(self.cx, f[1], self.hooks, self.depth).call_fn(None, f[2], args, kwargs, None, e)
         if isinstance(f, tuple) and f[0] == 'reccall':
             f[1].calls.append((f[2], args))
             return None
@@ -1253,6 +1282,12 @@ def rule_groups_and_shapes(cx, chk):
     rcls, fams = load_patterns(cx)
     chk.extra['patterns'] = sum(len(v) for v in fams.values())
     shapes = tabulate_assign(cx, chk, fams)
+    if any(i.rule == 'C14.groups' and i.verdict == 'violation' for i in chk.insts):
+        # shapes with a reported violation are not carried on; the floors of the rules that run over the remaining
+        # shapes only guard against vacuous passes, and this run cannot pass any more
+        for rid in ('C14.shape', 'C14.roundtrip', 'C14.units', 'C14.amount', 'C14.template'):
+            if rid in chk.rules:
+                chk.rules[rid]['floor'] = 0
     return rcls, fams, shapes
 
 
@@ -1312,7 +1347,45 @@ def render_arg(node, obj, where, env=None):
         return Tok('fld', name=node.args[0].attr, width=node.args[1].value)
     if isinstance(node, ast.Call) and chain(node.func) == 'str' and len(node.args) == 1:
         return render_arg(node.args[0], obj, where, env)
+    inl = inline_helper_call(node)
+    if inl is not None:
+        return render_arg(inl, obj, where, env)
     raise AnalysisError('%s: template argument not recognised: %s' % (where, ast.unparse(node)))
+
+
+_RCTX = {}
+
+
+def inline_helper_call(node, depth=0):
+    """f(a, b) where f is a module-level function or Cls.method whose body is one return expression -> that expression
+    with the parameters replaced by the argument expressions; None when the call is not of that kind"""
+    if not isinstance(node, ast.Call) or node.keywords or 'idx' not in _RCTX or depth > 4:
+        return None
+    idx, mod = _RCTX['idx'], _RCTX['mod']
+    fn = None
+    if isinstance(node.func, ast.Name):
+        r = idx.resolve(mod, node.func.id)
+        if r and r[0] == 'func':
+            fn = r[2]
+    elif isinstance(node.func, ast.Attribute) and isinstance(node.func.value, ast.Name):
+        r = idx.resolve(mod, node.func.value.id)
+        if r and r[0] == 'class' and node.func.attr in r[1].methods and node.func.attr != 'fixed_format_number':
+            fn = r[1].methods[node.func.attr]
+    if fn is None:
+        return None
+    body = [st for st in fn.body if not (isinstance(st, ast.Expr) and isinstance(st.value, ast.Constant))
+            and not isinstance(st, ast.Pass)]
+    ps = [p for p in params_of(fn) if p not in ('self', 'cls')]
+    if len(body) != 1 or not isinstance(body[0], ast.Return) or body[0].value is None or len(ps) != len(node.args):
+        return None
+    binding = dict(zip(ps, node.args))
+
+    class T(ast.NodeTransformer):
+        def visit_Name(self, n):
+            return binding.get(n.id, n) if isinstance(n.ctx, ast.Load) else n
+
+    import copy
+    return T().visit(copy.deepcopy(body[0].value))
 
 
 def template_tokens(node, obj, where, env=None):
@@ -1395,6 +1468,7 @@ def interpreted_templates(cx, c, name, fn, shapes):
 
 def load_templates(cx, shapes=()):
     c = cx.cls('timex_format', 'TimexFormat')
+    _RCTX.update(idx=cx.idx, mod=c.mod)
     out = []
     empties = 0
     fnames = []
@@ -2046,6 +2120,8 @@ def rule_falsy_zero(cx, chk, shapes):
                 lang = finite_lang(t.node)
                 if lang is None or any(set(w) == {'0'} for w in lang):
                     admits.add(t.name)
+    if not admits and any(i.rule == 'C14.groups' and i.verdict == 'violation' for i in chk.insts):
+        admits = set(ZERO_VALID)        # the time shapes were reported and dropped: use the reference fields
     if not admits:
         raise AnalysisError('no zero-admitting field found in the grammar (hour/minute/second groups vanished?)')
     n = 0
@@ -2131,6 +2207,12 @@ def run(chk):
     rule_duration(cx, chk)
     chk._c14 = (cx, fams, shapes, templates)
     rule_roundtrip(chk)
+    if any(i.rule == 'C14.groups' and i.verdict == 'violation' for i in chk.insts):
+        # shapes with a reported violation are not carried on; floors only guard against vacuous passes and this run
+        # cannot pass any more
+        for rid, r in chk.rules.items():
+            if rid != 'C14.groups':
+                r['floor'] = 0
 
 
 # ---------------------------------------------------------------------------------------------------
@@ -2164,6 +2246,13 @@ class ClassRef:
 class ModRef:
     def __init__(self, m):
         self.m = m
+
+
+class FuncRef:
+    """reference to a method (c = its class) or to a module-level function (c = None)"""
+
+    def __init__(self, c, fn, mod):
+        self.c, self.fn, self.mod = c, fn, mod
 
 
 class ObjRef:
@@ -2224,6 +2313,8 @@ class Interp:
                 return ModRef(r[1])
             if r and r[0] == 'const':
                 return const_value(self.idx, r[1], None, r[2])
+            if r and r[0] == 'func':
+                return FuncRef(None, r[2], r[1])
             self.err(mod, e, 'name not resolved')
         if isinstance(e, ast.Attribute):
             b = self.ev(e.value, env, mod)
@@ -2246,7 +2337,7 @@ class Interp:
                 if v is not None and isinstance(v, ast.Constant):
                     return v.value
                 if e.attr in b.c.methods:
-                    return ('method', b.c, b.c.methods[e.attr])
+                    return FuncRef(b.c, b.c.methods[e.attr], b.c.mod)
                 if v is not None:
                     try:
                         return ast.literal_eval(v)
@@ -2256,6 +2347,10 @@ class Interp:
             if isinstance(b, set) and e.attr == 'add':
                 return ('setadd', b)
             self.err(mod, e, 'attribute of %s not modelled' % type(b).__name__)
+        if isinstance(e, ast.Tuple):
+            return tuple(self.ev(x, env, mod) for x in e.elts)
+        if isinstance(e, ast.List):
+            return [self.ev(x, env, mod) for x in e.elts]
         if isinstance(e, ast.BoolOp):
             v = None
             for x in e.values:
@@ -2392,26 +2487,28 @@ class Interp:
         if isinstance(fv, tuple) and fv[0] == 'setadd':
             fv[1].add(args[0])
             return None
-        if isinstance(fv, tuple) and fv[0] == 'method':
-            _, c, fn = fv
-            if fn.name == 'fixed_format_number' and len(args) == 2 and isinstance(args[1], int):
+        if isinstance(fv, FuncRef):
+            c, fn = fv.c, fv.fn
+            if c is not None and fn.name == 'fixed_format_number' and len(args) == 2 and isinstance(args[1], int):
                 return TplV(self.to_toks(args[0], mod, e, args[1]))   # body checked by C14.timeprop
-            return self.call_fn(c, fn, args, mod, e)
-        self.err(mod, e, 'call not modelled')
+            return self.call_fn(c, fn, args, mod, e, fv.mod)
+        self.err(mod, e, 'call of %s not modelled' % type(fv).__name__)
 
-    def call_fn(self, c, fn, args, mod, node):
+    def call_fn(self, c, fn, args, mod, node, fmod=None):
+        fmod = fmod or (c.mod if c is not None else mod)
         self.depth += 1
         if self.depth > 12:
             self.err(mod, node, 'recursion too deep')
         try:
             ps = params_of(fn)
-            if not any(chain(d) in ('staticmethod',) for d in fn.decorator_list) and ps and ps[0] in ('self', 'cls')                     and len(args) == len(ps) - 1:
+            if c is not None and not any(chain(d) in ('staticmethod',) for d in fn.decorator_list) and ps \
+                    and ps[0] in ('self', 'cls') and len(args) == len(ps) - 1:
                 args = [ClassRef(c)] + list(args)
             if len(args) != len(ps):
-                self.err(mod, node, 'arity of %s.%s' % (c.name, fn.name))
+                self.err(mod, node, 'arity of %s' % fn.name)
             env = dict(zip(ps, args))
             try:
-                self.block(fn.body, env, c.mod)
+                self.block(fn.body, env, fmod)
             except _Return as r:
                 return r.v
             return None
@@ -2483,6 +2580,8 @@ def rule_roundtrip(chk):
     chk.rule('C14.roundtrip', 'abstract round trip: for every grammar shape (and date x time combination) and every '
                               'None/0/non-zero assignment the parser can produce, infer -> format emits exactly the '
                               'canonical shape of the input (T hh:00[:00] -> T hh)', floor=40)
+    if any(x.rule == 'C14.groups' and x.verdict == 'violation' for x in chk.insts):
+        chk.rules['C14.roundtrip']['floor'] = 0          # some shapes were already reported and dropped
     init = cx.meth('timex', 'Timex', '__init__')
     ps = params_of(init)[1:]
     defaults = dict(zip(ps[len(ps) - len(init.args.defaults):], init.args.defaults))
